@@ -2,7 +2,8 @@
 Enumerates all 28 configurations (7 non-empty subsets of the parameter sets x default-rng x dudect)."""
 import itertools, json, os, subprocess, sys, time
 from concurrent.futures import ThreadPoolExecutor
-from verif_common import Report, MC, TARGET, env
+from verif_common import Report, MC, TARGET, env, gc_deps
+import shutil
 
 SETS = ["ml-dsa-44", "ml-dsa-65", "ml-dsa-87"]
 
@@ -56,6 +57,9 @@ def one(idx, feats, release, hooks_variant):
                 parts = line.split()
                 res["kat"][parts[1]] = dict(p.split("=", 1) for p in parts[2:])
     res["wall"] = time.time() - t
+    gc_deps(os.path.join(tdir, "release" if release else "debug"), keep=3)
+    if release:
+        shutil.rmtree(tdir, ignore_errors=True)  # thorough (release) build trees are not kept
     return res
 
 
